@@ -1,6 +1,6 @@
 #!/bin/sh
 # Builds bin/verif (and bin/verif-race when asked) from /repo's current working tree.
-# usage: ./build.sh [race]
+# usage: ./build.sh [race] [cover]
 set -e
 cd "$(dirname "$0")"
 export GOFLAGS=-mod=mod GOPROXY=off GOSUMDB=off GOTOOLCHAIN=local
@@ -19,6 +19,11 @@ mkdir -p "$ROOT/bin"
 # executes a half-written binary
 go build $MODFLAG -tags verif -o "$ROOT/bin/verif.$$" ./cmd/verif
 mv -f "$ROOT/bin/verif.$$" "$ROOT/bin/verif"
+if [ "$1" = cover ] || [ "$2" = cover ]; then
+  # statement coverage of the library under a check's workload (thorough tier only)
+  go build $MODFLAG -cover -covermode=atomic -coverpkg=github.com/gregoryv/mq,verif/... -tags verif -o "$ROOT/bin/verif-cover.$$" ./cmd/verif \
+    && mv -f "$ROOT/bin/verif-cover.$$" "$ROOT/bin/verif-cover"
+fi
 if [ "$1" = race ]; then
   go build $MODFLAG -race -tags verif -o "$ROOT/bin/verif-race.$$" ./cmd/verif
   mv -f "$ROOT/bin/verif-race.$$" "$ROOT/bin/verif-race"
